@@ -1222,7 +1222,7 @@ def plan(ctx):
         fam("snapshot", 3, True, 4, 1, ALL, 12)
         fam("conflict", 3, False, 4, 1, ALL, 12)
         fam("vote", 3, True, 3, 1, VOTE, 2)
-        fam("members", 3, True, 4, 1, ALL, 12)
+        fam("members", 3, True, 8, 1, ALL, 12)
         fam("members", 3, False, 0, 1, ALL, 12)
         fam("members", 4, True, 0, 2, ALL, 12)
         fam("replication", 5, True, 0, 1, ALL, 16)
